@@ -368,6 +368,10 @@ func encOf(s string) mail.Encoding {
 	return mail.Encoding(s)
 }
 
+// MidContentHook, when set, is called once by the first producer that has handed half of its
+// content to the writer (a caller whose context ends while a message is being written).
+var MidContentHook func()
+
 // ErrInjected is the error every failing producer returns.
 var ErrInjected = errors.New("injected producer failure")
 
@@ -421,6 +425,10 @@ func (p *Producer) WriteFunc(w io.Writer) (int64, error) {
 		if m < n {
 			p.DownstreamErr++
 			return int64(p.Emitted), io.ErrShortWrite
+		}
+		if h := MidContentHook; h != nil && p.Emitted*2 >= limit {
+			MidContentHook = nil
+			h()
 		}
 	}
 	if fail {
